@@ -4,10 +4,16 @@
 
    Main theorems
      parse_selector_rt, parse_selector_rt_ws        (section 7)
+     parse_selector_rt_nthws, parse_selector_rt_ws_nthws   (section 7; optional whitespace [nws]
+                                                    inside `:nth-child( An + B )`)
      parse_ruleset_rt, parse_ruleset_rt_canon       (section 10)
      parse_stylesheet_rt_ws, parse_stylesheet_rt    (section 10)
      insignificant_whitespace                       (section 10)
-   Findings (section 12): `:nth-child(2n + 1)` and `p::before , q` are not accepted.
+     parse_ruleset_rt2, parse_stylesheet_rt_ws2, insignificant_whitespace2   (section 10; the
+       positions of [wsp2] = those of [wsp] + before the `,` of a selector list + [nws]); the
+       unnumbered theorems are their instances without the extra whitespace
+   Former findings (section 12), repaired in CssParse (nth_full, comma_sep): `:nth-child(2n + 1)`
+   and `p::before , q` are now accepted.  Still not accepted: upper case `2N+1`.
 
    Concrete syntax chosen for the printer (canonical spelling):
      selector   = components in SOURCE order (the parser stores them right-to-left, so
@@ -397,13 +403,113 @@ Lemma nf_lit : forall (P : N -> bool) x l k, P x = false -> nf P (of_ascii (x ::
 Proof. intros; unfold of_ascii; cbn [map app nf cp mk]; auto. Qed.
 
 (* ------------------------------------------------------------------ *)
+(* 4b. whitespace material: spaces, tabs, newlines, comments *)
+Fixpoint nocs (t : text) : bool :=      (* no `*/` inside *)
+  match t with
+  | c :: ((d :: _) as t') => negb ((cp c =? 42) && (cp d =? 47)) && nocs t'
+  | _ => true
+  end.
+Inductive wsm : text -> Prop :=
+| wsm_nil : wsm []
+| wsm_ws : forall c w, is_css_ws (cp c) = true -> wsm w -> wsm (c :: w)
+| wsm_comment : forall body w, nocs body = true -> wsm w ->
+    wsm (of_ascii [47; 42] ++ body ++ of_ascii [42; 47] ++ w).
+
+Lemma take_until_body : forall body k, nocs body = true ->
+  take_until_star_slash (body ++ of_ascii [42; 47] ++ k) = Some (of_ascii [42; 47] ++ k).
+Proof.
+  induction body as [|c body IH]; intros k Hb; [reflexivity|].
+  destruct body as [|d body'].
+  - cbn [app]. change (of_ascii [42; 47] ++ k) with (mk 42 1 :: mk 47 1 :: k).
+    cbn [take_until_star_slash cp mk].
+    change (42 =? 47) with false. rewrite andb_false_r. rewrite N.eqb_refl. reflexivity.
+  - cbn [nocs] in Hb. apply andb_prop in Hb; destruct Hb as [Hcd Hb].
+    specialize (IH k Hb). cbn [app] in IH |- *.
+    cbn [take_until_star_slash]. cbn [take_until_star_slash] in IH.
+    destruct ((cp c =? 42) && (cp d =? 47)); [discriminate|]. exact IH.
+Qed.
+Lemma match_comment_ok : forall body k, nocs body = true ->
+  match_comment (of_ascii [47; 42] ++ body ++ of_ascii [42; 47] ++ k) = POk tt k.
+Proof.
+  intros body k Hb. unfold match_comment. rewrite ptag_lit. cbn [pbind].
+  rewrite take_until_body by exact Hb. apply ptag_lit.
+Qed.
+Lemma wsm_many : forall w k, wsm w -> nf wsstart k ->
+  exists l, ManyR match_whitespace_item (w ++ k) l k /\ (w <> [] -> l <> []).
+Proof.
+  intros w k Hw Hk; induction Hw as [|c w Hc Hw IH|body w Hb Hw IH].
+  - exists []; split; [apply MR_nil, mwi_fail, Hk|congruence].
+  - destruct IH as (l & HR & _). exists (tt :: l); split; [|discriminate].
+    cbn [app]. eapply MR_cons; [apply mwi_ws, Hc|cbn [length]; lia|exact HR].
+  - destruct IH as (l & HR & _). exists (tt :: l); split; [|discriminate].
+    rewrite <- !app_assoc.
+    eapply MR_cons; [|  |exact HR].
+    + change (of_ascii [47; 42] ++ body ++ of_ascii [42; 47] ++ w ++ k)
+        with (mk 47 1 :: (of_ascii [42] ++ body ++ of_ascii [42; 47] ++ w ++ k)).
+      unfold match_whitespace_item. change (is_css_ws (cp (mk 47 1))) with false. cbv iota.
+      apply (match_comment_ok body (w ++ k) Hb).
+    + rewrite !app_length. cbn [length of_ascii map]. lia.
+Qed.
+Lemma skip_ws_wsm : forall w k, wsm w -> nf wsstart k -> skip_ws (w ++ k) = k.
+Proof. intros w k Hw Hk. destruct (wsm_many w k Hw Hk) as (l & HR & _). eapply skip_ws_R, HR. Qed.
+Lemma wsm_app : forall w1 w2, wsm w1 -> wsm w2 -> wsm (w1 ++ w2).
+Proof.
+  intros w1 w2 H1 H2; induction H1; cbn [app]; auto.
+  - apply wsm_ws; auto.
+  - rewrite <- !app_assoc. apply wsm_comment; auto.
+Qed.
+Lemma wsm_nf : forall (P : N -> bool) w k, wsm w -> (forall x, wsstart x = true -> P x = false) ->
+  (w <> [] \/ nf P k) -> nf P (w ++ k).
+Proof.
+  intros P w k Hw HP Hk; destruct Hw as [|c w Hc Hw|body w Hb Hw]; cbn [app].
+  - destruct Hk; [congruence|assumption].
+  - cbn [nf]. apply HP. cls.
+  - rewrite <- !app_assoc. apply nf_lit. apply HP. reflexivity.
+Qed.
+
+(* a non-empty whitespace run in front of a character that is not `>` is a descendant combinator *)
+Lemma comp_ws : forall w k, wsm w -> w <> [] -> nf (fun x => wsstart x || (x =? 62)) k ->
+  parse_simple_selector_component (w ++ k) = POk CCombDescendant k.
+Proof.
+  intros w k Hw Hne Hk.
+  assert (Hk' : nf wsstart k) by (eapply nf_imp; [|exact Hk]; intros x Hx; cls).
+  unfold parse_simple_selector_component.
+  rewrite skip_ws_wsm by assumption.
+  rewrite (ptag_nf 62) by (eapply nf_imp; [|exact Hk]; intros x Hx; cls). cbn [pbind palt].
+  rewrite (ptag_nf 42) by (apply wsm_nf; [exact Hw|intros; cls|left; exact Hne]). cbn [pbind palt].
+  unfold parse_ws.
+  destruct (wsm_many w k Hw Hk') as (l & HR & Hl).
+  destruct l as [|[] l]; [specialize (Hl Hne); congruence|].
+  rewrite (many1_R _ _ _ _ _ _ HR). reflexivity.
+Qed.
+
+(* ------------------------------------------------------------------ *)
 (* 5. the printer for selectors *)
 Definition i32max : Z := 2147483647.
+(* optional whitespace inside `:nth-child( An + B )`; the canonical printer uses none *)
+Record nws := mknws {
+  n_open : text;    (* after `(` *)
+  n_pre : text;     (* between `n` and the sign of B *)
+  n_post : text;    (* between the sign of B and its digits *)
+  n_close : text    (* before `)` *)
+}.
+Definition nws_ok (q : nws) : Prop :=
+  wsm (n_open q) /\ wsm (n_pre q) /\ wsm (n_post q) /\ wsm (n_close q).
+Definition nws0 : nws := mknws [] [] [] [].
+Lemma nws0_ok : nws_ok nws0.
+Proof. repeat split; apply wsm_nil. Qed.
+
 Definition nth_args (a b : Z) : text :=
   (if (a <? 0)%Z then of_ascii [45] else []) ++ of_ascii (dec_N (Z.abs_N a)) ++ of_ascii [110] ++
   of_ascii [if (b <? 0)%Z then 45 else 43] ++ of_ascii (dec_N (Z.abs_N b)).
 Definition print_nth (a b : Z) : text :=
   of_ascii [58] ++ of_ascii s_nth_child ++ of_ascii [40] ++ nth_args a b ++ of_ascii [41].
+Definition nth_args_q (q : nws) (a b : Z) : text :=
+  (if (a <? 0)%Z then of_ascii [45] else []) ++ of_ascii (dec_N (Z.abs_N a)) ++ of_ascii [110] ++
+  n_pre q ++ of_ascii [if (b <? 0)%Z then 45 else 43] ++ n_post q ++ of_ascii (dec_N (Z.abs_N b)).
+Definition print_nth_q (q : nws) (a b : Z) : text :=
+  of_ascii [58] ++ of_ascii s_nth_child ++ of_ascii [40] ++ n_open q ++ nth_args_q q a b ++
+  n_close q ++ of_ascii [41].
 
 Definition print_comp (c : comp) : text :=
   match c with
@@ -415,6 +521,16 @@ Definition print_comp (c : comp) : text :=
   | CCombDescendant => of_ascii [32]
   | CNthChild a b => print_nth a b
   end.
+Definition print_comp_q (q : nws) (c : comp) : text :=
+  match c with
+  | CClass n => of_ascii [46] ++ n
+  | CHash h => of_ascii [35] ++ h
+  | CElement n => n
+  | CStar => of_ascii [42]
+  | CCombChild => of_ascii [32; 62; 32]
+  | CCombDescendant => of_ascii [32]
+  | CNthChild a b => print_nth_q q a b
+  end.
 Definition print_pseudo (p : option pseudo) : text :=
   match p with
   | None => []
@@ -425,6 +541,20 @@ Definition print_pseudo (p : option pseudo) : text :=
 Definition print_comps (l : list comp) : text := flat_map print_comp l.
 Definition print_selector (s : selector) : text :=
   print_comps (rev (comps s)) ++ print_pseudo (pseudo_el s).
+Definition print_comps_q (q : nws) (l : list comp) : text := flat_map (print_comp_q q) l.
+Definition print_selector_q (q : nws) (s : selector) : text :=
+  print_comps_q q (rev (comps s)) ++ print_pseudo (pseudo_el s).
+
+(* the canonical printer is the instance without whitespace *)
+Lemma print_comp_q0 : forall c, print_comp_q nws0 c = print_comp c.
+Proof. intros []; reflexivity. Qed.
+Lemma print_comps_q0 : forall l, print_comps_q nws0 l = print_comps l.
+Proof.
+  induction l as [|c l IH]; [reflexivity|].
+  unfold print_comps_q, print_comps in *; cbn [flat_map]. rewrite IH, print_comp_q0. reflexivity.
+Qed.
+Lemma print_selector_q0 : forall s, print_selector_q nws0 s = print_selector s.
+Proof. intros s; unfold print_selector_q, print_selector. rewrite print_comps_q0. reflexivity. Qed.
 
 (* ---- nth-child ---- *)
 Lemma opt_sign_minus : forall t, opt_sign (mk 45 1 :: t) = ((-1)%Z, t).
@@ -447,20 +577,21 @@ Proof.
   assert (E : (n <=? 2147483647) = true) by lia. rewrite E; reflexivity.
 Qed.
 
-Lemma nth_full_ok : forall a b k,
+Lemma nth_full_ok : forall q a b k, nws_ok q ->
   (Z.abs a <= i32max)%Z -> (Z.abs b <= i32max)%Z -> nf is_digit k ->
-  nth_full (nth_args a b ++ k) = POk (a, b) k.
+  nth_full (nth_args_q q a b ++ k) = POk (a, b) k.
 Proof.
-  intros a b k Ha Hb Hk. unfold i32max in *.
+  intros q a b k (_ & Hpre & Hpost & _) Ha Hb Hk. unfold i32max in *.
+  set (tl := n_pre q ++ of_ascii [if (b <? 0)%Z then 45 else 43] ++ n_post q ++
+             of_ascii (dec_N (Z.abs_N b)) ++ k).
   assert (Hfin : forall sa, (Z.of_N (Z.abs_N a) * sa)%Z = a ->
-    pbind (popt (digit1 (of_ascii (dec_N (Z.abs_N a)) ++ of_ascii [110] ++
-                   of_ascii [if (b <? 0)%Z then 45 else 43] ++ of_ascii (dec_N (Z.abs_N b)) ++ k) [])
-                (of_ascii (dec_N (Z.abs_N a)) ++ of_ascii [110] ++
-                   of_ascii [if (b <? 0)%Z then 45 else 43] ++ of_ascii (dec_N (Z.abs_N b)) ++ k))
+    pbind (popt (digit1 (of_ascii (dec_N (Z.abs_N a)) ++ of_ascii [110] ++ tl) [])
+                (of_ascii (dec_N (Z.abs_N a)) ++ of_ascii [110] ++ tl))
       (fun a_opt r2 =>
        pbind (ptag [110] r2) (fun _ r3 =>
        let r4 := skip_ws r3 in
-       pbind (sign r4) (fun b_sign r5 =>
+       pbind (sign r4) (fun b_sign r5a =>
+       let r5 := skip_ws r5a in
        pbind (digit1 r5 []) (fun b_val r6 =>
        match (match a_opt with Some d => i32_of_digits d | None => Some 1%Z end), i32_of_digits b_val with
        | Some a0, Some b0 => POk ((a0 * sa)%Z, (b0 * b_sign)%Z) r6
@@ -469,58 +600,64 @@ Proof.
   { intros sa Hsa.
     rewrite digit1_digits; [|apply dec_N_digits|apply nf_lit; reflexivity|left; apply dec_N_ne].
     cbn [rev app popt pbind]. rewrite ptag_lit. cbn [pbind]. cbv zeta.
-    rewrite i32_of_digits_dec by lia.
+    rewrite i32_of_digits_dec by lia. unfold tl.
+    assert (Hd : nf wsstart (of_ascii (dec_N (Z.abs_N b)) ++ k))
+      by (apply nf_digits; [apply dec_N_ne|apply dec_N_digits|intros; cls]).
     destruct (b <? 0)%Z eqn:Eb.
-    - rewrite skip_ws_id by (apply nf_lit; reflexivity).
+    - rewrite skip_ws_wsm by (auto; apply nf_lit; reflexivity).
       unfold of_ascii at 1; cbn [map app]. rewrite sign_minus. cbn [pbind].
+      rewrite skip_ws_wsm by auto.
       rewrite digit1_digits; [|apply dec_N_digits|exact Hk|left; apply dec_N_ne].
       cbn [rev app pbind]. rewrite i32_of_digits_dec by lia.
       f_equal. f_equal; lia.
-    - rewrite skip_ws_id by (apply nf_lit; reflexivity).
+    - rewrite skip_ws_wsm by (auto; apply nf_lit; reflexivity).
       unfold of_ascii at 1; cbn [map app]. rewrite sign_plus. cbn [pbind].
+      rewrite skip_ws_wsm by auto.
       rewrite digit1_digits; [|apply dec_N_digits|exact Hk|left; apply dec_N_ne].
       cbn [rev app pbind]. rewrite i32_of_digits_dec by lia.
       f_equal. f_equal; lia. }
-  unfold nth_args. rewrite <- !app_assoc. unfold nth_full.
+  unfold nth_args_q. rewrite <- !app_assoc. fold tl. unfold nth_full.
   destruct (a <? 0)%Z eqn:Ea.
   - unfold of_ascii at 1; cbn [map app]. rewrite opt_sign_minus. apply Hfin. lia.
   - cbn [app]. rewrite opt_sign_nf by (apply nf_digits; [apply dec_N_ne|apply dec_N_digits|intros; lia]).
     apply Hfin. lia.
 Qed.
 
-Lemma nf_nth_args : forall (P : N -> bool) a b k, P 45 = false ->
-  (forall d, 48 <= d <= 57 -> P d = false) -> nf P (nth_args a b ++ k).
+Lemma nf_nth_args : forall (P : N -> bool) q a b k, P 45 = false ->
+  (forall d, 48 <= d <= 57 -> P d = false) -> nf P (nth_args_q q a b ++ k).
 Proof.
-  intros P a b k H45 Hd. unfold nth_args. rewrite <- !app_assoc.
+  intros P q a b k H45 Hd. unfold nth_args_q. rewrite <- !app_assoc.
   destruct (a <? 0)%Z.
   - apply nf_lit, H45.
   - cbn [app]. apply nf_digits; [apply dec_N_ne|apply dec_N_digits|exact Hd].
 Qed.
 
-Lemma parse_nth_child_args_ok : forall a b k,
+Lemma parse_nth_child_args_ok : forall q a b k, nws_ok q ->
   (Z.abs a <= i32max)%Z -> (Z.abs b <= i32max)%Z ->
-  parse_nth_child_args (of_ascii [40] ++ nth_args a b ++ of_ascii [41] ++ k) = POk (CNthChild a b) k.
+  parse_nth_child_args (of_ascii [40] ++ n_open q ++ nth_args_q q a b ++ n_close q ++ of_ascii [41] ++ k)
+  = POk (CNthChild a b) k.
 Proof.
-  intros a b k Ha Hb. unfold parse_nth_child_args. rewrite ptag_lit. cbn [pbind]. cbv zeta.
-  rewrite skip_ws_id by (apply nf_nth_args; [reflexivity|intros; cls]).
+  intros q a b k Hq Ha Hb. pose proof Hq as (Hopen & _ & _ & Hclose).
+  unfold parse_nth_child_args. rewrite ptag_lit. cbn [pbind]. cbv zeta.
+  rewrite skip_ws_wsm; [|exact Hopen|apply nf_nth_args; [reflexivity|intros; cls]].
   unfold s_even, s_odd.
   rewrite (ptag_nf 101) by (apply nf_nth_args; [reflexivity|intros; lia]).
   rewrite (ptag_nf 111) by (apply nf_nth_args; [reflexivity|intros; lia]).
   cbn [pmap palt].
-  rewrite nth_full_ok by (auto; apply nf_lit; reflexivity).
+  rewrite nth_full_ok; [|exact Hq|exact Ha|exact Hb|apply wsm_nf; [exact Hclose|intros; cls|right; apply nf_lit; reflexivity]].
   cbn [palt pbind fst snd].
-  rewrite skip_ws_id by (apply nf_lit; reflexivity).
+  rewrite skip_ws_wsm by (auto; apply nf_lit; reflexivity).
   rewrite ptag_lit. reflexivity.
 Qed.
 
 Lemma ident_nth_child : ident_okb (of_ascii s_nth_child) = true.
 Proof. reflexivity. Qed.
 
-Lemma parse_pseudo_class_ok : forall a b k,
+Lemma parse_pseudo_class_ok : forall q a b k, nws_ok q ->
   (Z.abs a <= i32max)%Z -> (Z.abs b <= i32max)%Z ->
-  parse_pseudo_class (print_nth a b ++ k) = POk (CNthChild a b) k.
+  parse_pseudo_class (print_nth_q q a b ++ k) = POk (CNthChild a b) k.
 Proof.
-  intros a b k Ha Hb. unfold parse_pseudo_class, print_nth. rewrite <- !app_assoc.
+  intros q a b k Hq Ha Hb. unfold parse_pseudo_class, print_nth_q. rewrite <- !app_assoc.
   rewrite ptag_lit. cbn [pbind].
   rewrite parse_ident_ok by (try apply ident_nth_child; apply nf_lit; reflexivity).
   cbn [pbind].
@@ -529,6 +666,10 @@ Proof.
 Qed.
 
 (* ---- one component ---- *)
+Section SelQ.
+Variable q : nws.
+Hypothesis Hq : nws_ok q.
+
 Definition comp_ok (c : comp) : bool :=
   match c with
   | CClass n | CElement n => ident_okb n
@@ -577,32 +718,32 @@ Proof.
   - left; reflexivity.
 Qed.
 Lemma nf_print : forall (P : N -> bool) y k, comp_ok y = true -> P (fc y) = false ->
-  nf P (print_comp y ++ k).
+  nf P (print_comp_q q y ++ k).
 Proof.
-  intros P y k Hy HP. destruct y; cbn [print_comp fc comp_ok] in *;
-    try (unfold print_nth; rewrite <- ?app_assoc); try (apply nf_lit; exact HP).
+  intros P y k Hy HP. destruct y; cbn [print_comp_q fc comp_ok] in *;
+    try (unfold print_nth_q; rewrite <- ?app_assoc); try (apply nf_lit; exact HP).
   destruct n as [|c n]; [discriminate|]. cbn [app nf]. exact HP.
 Qed.
-Lemma print_comp_len : forall y, comp_ok y = true -> (0 < length (print_comp y))%nat.
+Lemma print_comp_len : forall y, comp_ok y = true -> (0 < length (print_comp_q q y))%nat.
 Proof.
-  intros y Hy. destruct y; cbn [print_comp comp_ok] in *; try (cbn; lia).
+  intros y Hy. destruct y; cbn [print_comp_q comp_ok] in *; try (cbn; lia).
   destruct n; [discriminate|cbn; lia].
 Qed.
 
 Lemma comp_rt : forall x k, comp_ok x = true -> nfollow x k ->
-  parse_simple_selector_component (print_comp x ++ k) = POk x k.
+  parse_simple_selector_component (print_comp_q q x ++ k) = POk x k.
 Proof.
   intros x k Hx Hk. unfold nfollow in Hk.
   destruct x as [n|n|h| | | |a b]; cbn [comp_ok follow] in *.
   - (* class *)
-    cbn [print_comp]. rewrite <- app_assoc.
+    cbn [print_comp_q]. rewrite <- app_assoc.
     rewrite comp_simple by (apply nf_lit; reflexivity).
     rewrite (ptag_nf 42) by (apply nf_lit; reflexivity). cbn [pbind palt].
     unfold parse_class. rewrite ptag_lit. cbn [pbind].
     rewrite parse_ident_ok; [reflexivity|exact Hx|].
     eapply nf_imp; [|exact Hk]. intros y Hy; cbv beta in Hy; destruct (identcont y); cbn in Hy |- *; congruence.
   - (* element *)
-    cbn [print_comp].
+    cbn [print_comp_q].
     assert (Hnf : forall P : N -> bool, P 45 = false -> (forall y, lowstart y = true -> P y = false) ->
                   nf P (n ++ k)).
     { intros P H45 Hl. apply (nf_print P (CElement n) k Hx).
@@ -614,7 +755,7 @@ Proof.
     rewrite parse_ident_ok; [reflexivity|exact Hx|].
     eapply nf_imp; [|exact Hk]. intros y Hy; cbv beta in Hy; destruct (identcont y); cbn in Hy |- *; congruence.
   - (* hash *)
-    cbn [print_comp]. rewrite <- app_assoc.
+    cbn [print_comp_q]. rewrite <- app_assoc.
     rewrite comp_simple by (apply nf_lit; reflexivity).
     rewrite (ptag_nf 42) by (apply nf_lit; reflexivity). cbn [pbind palt].
     unfold parse_class. rewrite (ptag_nf 46) by (apply nf_lit; reflexivity). cbn [pbind palt].
@@ -623,11 +764,11 @@ Proof.
                                   |destruct h; [discriminate|exact Hx]|].
     eapply nf_imp; [|exact Hk]. intros y Hy; cbv beta in Hy; destruct (identcont y); cbn in Hy |- *; congruence.
   - (* star *)
-    cbn [print_comp].
+    cbn [print_comp_q].
     rewrite comp_simple by (apply nf_lit; reflexivity).
     rewrite ptag_lit. reflexivity.
   - (* child *)
-    cbn [print_comp]. unfold parse_simple_selector_component.
+    cbn [print_comp_q]. unfold parse_simple_selector_component.
     change (of_ascii [32; 62; 32] ++ k) with (mk 32 1 :: (of_ascii [62] ++ (mk 32 1 :: k))).
     rewrite skip_ws_cons by reflexivity.
     rewrite skip_ws_id by (apply nf_lit; reflexivity).
@@ -636,7 +777,7 @@ Proof.
     rewrite skip_ws_id; [reflexivity|].
     eapply nf_imp; [|exact Hk]. intros y Hy; cbv beta in Hy; destruct (wsstart y); cbn in Hy |- *; congruence.
   - (* descendant *)
-    cbn [print_comp]. unfold parse_simple_selector_component.
+    cbn [print_comp_q]. unfold parse_simple_selector_component.
     change (of_ascii [32] ++ k) with (mk 32 1 :: k).
     assert (Hw : nf wsstart k).
     { eapply nf_imp; [|exact Hk]. intros y Hy; cbv beta in Hy; destruct (wsstart y); cbn in Hy |- *; congruence. }
@@ -650,15 +791,15 @@ Proof.
     + reflexivity.
     + eapply MR_cons; [apply mwi_ws; reflexivity|cbn [length]; lia|apply MR_nil, mwi_fail, Hw].
   - (* nth-child *)
-    cbn [print_comp]. apply andb_prop in Hx; destruct Hx as [Ha Hb].
-    assert (Hl : forall (P : N -> bool) , P 58 = false -> nf P (print_nth a b ++ k)).
-    { intros P HP; unfold print_nth; rewrite <- !app_assoc; apply nf_lit, HP. }
+    cbn [print_comp_q]. apply andb_prop in Hx; destruct Hx as [Ha Hb].
+    assert (Hl : forall (P : N -> bool) , P 58 = false -> nf P (print_nth_q q a b ++ k)).
+    { intros P HP; unfold print_nth_q; rewrite <- !app_assoc; apply nf_lit, HP. }
     rewrite comp_simple by (apply Hl; reflexivity).
     rewrite (ptag_nf 42) by (apply Hl; reflexivity). cbn [pbind palt].
     unfold parse_class. rewrite (ptag_nf 46) by (apply Hl; reflexivity). cbn [pbind palt].
     unfold parse_hash. rewrite (ptag_nf 35) by (apply Hl; reflexivity). cbn [pbind palt].
     rewrite parse_ident_fail by (apply Hl; reflexivity). cbn [pmap palt].
-    apply parse_pseudo_class_ok; lia.
+    apply parse_pseudo_class_ok; [exact Hq|lia|lia].
 Qed.
 
 (* ---- a sequence of components ---- *)
@@ -670,27 +811,27 @@ Fixpoint chain (l : list comp) : bool :=
 Definition is_comb (c : comp) : bool :=
   match c with CCombChild | CCombDescendant => true | _ => false end.
 
-Lemma print_comps_cons : forall x l, print_comps (x :: l) = print_comp x ++ print_comps l.
+Lemma print_comps_cons : forall x l, print_comps_q q (x :: l) = print_comp_q q x ++ print_comps_q q l.
 Proof. reflexivity. Qed.
 
 Lemma chain_many : forall l T l2 R,
   forallb comp_ok l = true -> chain l = true ->
   (l <> [] -> nfollow (last l CStar) T) ->
   ManyR parse_simple_selector_component T l2 R ->
-  ManyR parse_simple_selector_component (print_comps l ++ T) (l ++ l2) R.
+  ManyR parse_simple_selector_component (print_comps_q q l ++ T) (l ++ l2) R.
 Proof.
   induction l as [|x l IH]; intros T l2 R Hok Hch Hlast HT; [exact HT|].
   cbn [forallb] in Hok. apply andb_prop in Hok; destruct Hok as [Hx Hok].
   rewrite print_comps_cons, <- app_assoc. cbn [app].
-  assert (Hk : nfollow x (print_comps l ++ T)).
+  assert (Hk : nfollow x (print_comps_q q l ++ T)).
   { destruct l as [|y l'].
-    - cbn [print_comps flat_map app]. apply Hlast; discriminate.
+    - cbn [print_comps_q flat_map app]. apply Hlast; discriminate.
     - cbn [chain] in Hch. apply andb_prop in Hch; destruct Hch as [Hf _].
       cbn [forallb] in Hok. apply andb_prop in Hok; destruct Hok as [Hy _].
       rewrite print_comps_cons, <- app_assoc. unfold nfollow. apply nf_print; [exact Hy|].
       rewrite Hf; reflexivity. }
   eapply MR_cons; [apply comp_rt; assumption| |].
-  - rewrite (app_length (print_comp x)). pose proof (print_comp_len x Hx). lia.
+  - rewrite (app_length (print_comp_q q x)). pose proof (print_comp_len x Hx). lia.
   - apply IH; auto.
     + destruct l as [|y l']; [reflexivity|]. cbn [chain] in Hch. apply andb_prop in Hch; tauto.
     + intros Hne. destruct l as [|y l']; [congruence|]. apply Hlast; discriminate.
@@ -782,7 +923,7 @@ Lemma parse_selector_src : forall l K l2 R,
   wf_src l = true ->
   nf identcont K ->
   ManyR parse_simple_selector_component K l2 R ->
-  parse_selector (print_comps l ++ K) =
+  parse_selector (print_comps_q q l ++ K) =
   (let cs2 := pop_desc (rev (pop_desc (l ++ l2))) in
    let '(pe, rest') := parse_pseudo_element R in POk (mksel cs2 pe) rest').
 Proof.
@@ -797,20 +938,20 @@ Proof.
     destruct (is_comb (last (x :: l) CStar)); [discriminate|reflexivity]. }
   pose proof (chain_many (x :: l) K l2 R Hok Hch Hlf HR) as HM.
   unfold parse_selector.
-  assert (E : palt (parse_selector_with_element (print_comps (x :: l) ++ K))
-                   (fun _ => parse_selector_without_element (print_comps (x :: l) ++ K))
+  assert (E : palt (parse_selector_with_element (print_comps_q q (x :: l) ++ K))
+                   (fun _ => parse_selector_without_element (print_comps_q q (x :: l) ++ K))
               = POk ((x :: l) ++ l2) R).
   { inversion HM as [|t a t' l0 r0 Hp Hlt HR' Et El]; subst.
     destruct (match x with CElement _ => true | _ => false end) eqn:Ex.
     - destruct x as [|n| | | | |]; try discriminate.
       unfold parse_selector_with_element.
-      rewrite print_comps_cons, <- app_assoc. cbn [print_comp].
-      rewrite print_comps_cons, <- app_assoc in Hp. cbn [print_comp] in Hp.
+      rewrite print_comps_cons, <- app_assoc. cbn [print_comp_q].
+      rewrite print_comps_cons, <- app_assoc in Hp. cbn [print_comp_q] in Hp.
       (* the component parser took the element through parse_ident *)
-      assert (Hid : parse_ident (n ++ print_comps l ++ K) = POk n t').
+      assert (Hid : parse_ident (n ++ print_comps_q q l ++ K) = POk n t').
       { cbn [forallb comp_ok] in Hok. apply andb_prop in Hok; destruct Hok as [Hn _].
         assert (Hnf : forall P : N -> bool, P 45 = false -> (forall y, lowstart y = true -> P y = false) ->
-                      nf P (n ++ print_comps l ++ K)).
+                      nf P (n ++ print_comps_q q l ++ K)).
         { intros P H45 Hl. apply (nf_print P (CElement n) _ Hn).
           destruct (fc_elem n Hn) as [E|E]; [rewrite E; exact H45|apply Hl, E]. }
         rewrite comp_simple in Hp by (apply Hnf; [reflexivity|intros; cls]).
@@ -819,14 +960,14 @@ Proof.
         rewrite (ptag_nf 46) in Hp by (apply Hnf; [reflexivity|intros; cls]). cbn [pbind palt] in Hp.
         unfold parse_hash in Hp.
         rewrite (ptag_nf 35) in Hp by (apply Hnf; [reflexivity|intros; cls]). cbn [pbind palt] in Hp.
-        destruct (parse_ident (n ++ print_comps l ++ K)) as [n' r'| | |]; cbn [pmap palt] in Hp.
+        destruct (parse_ident (n ++ print_comps_q q l ++ K)) as [n' r'| | |]; cbn [pmap palt] in Hp.
         - inversion Hp; subst; reflexivity.
         - unfold parse_pseudo_class in Hp.
           rewrite (ptag_nf 58) in Hp by (apply Hnf; [reflexivity|intros; cls]). discriminate.
         - discriminate.
         - discriminate. }
       rewrite Hid. cbn [pbind]. rewrite (many0_R _ _ _ _ _ HR'). reflexivity.
-    - assert (Hf : parse_ident (print_comps (x :: l) ++ K) = PFail).
+    - assert (Hf : parse_ident (print_comps_q q (x :: l) ++ K) = PFail).
       { rewrite print_comps_cons, <- app_assoc.
         cbn [forallb] in Hok. apply andb_prop in Hok; destruct Hok as [Hx _].
         apply parse_ident_fail. apply nf_print; [exact Hx|].
@@ -836,86 +977,7 @@ Proof.
   rewrite E. reflexivity.
 Qed.
 
-(* ------------------------------------------------------------------ *)
-(* 6. whitespace material: spaces, tabs, newlines, comments *)
-Fixpoint nocs (t : text) : bool :=      (* no `*/` inside *)
-  match t with
-  | c :: ((d :: _) as t') => negb ((cp c =? 42) && (cp d =? 47)) && nocs t'
-  | _ => true
-  end.
-Inductive wsm : text -> Prop :=
-| wsm_nil : wsm []
-| wsm_ws : forall c w, is_css_ws (cp c) = true -> wsm w -> wsm (c :: w)
-| wsm_comment : forall body w, nocs body = true -> wsm w ->
-    wsm (of_ascii [47; 42] ++ body ++ of_ascii [42; 47] ++ w).
-
-Lemma take_until_body : forall body k, nocs body = true ->
-  take_until_star_slash (body ++ of_ascii [42; 47] ++ k) = Some (of_ascii [42; 47] ++ k).
-Proof.
-  induction body as [|c body IH]; intros k Hb; [reflexivity|].
-  destruct body as [|d body'].
-  - cbn [app]. change (of_ascii [42; 47] ++ k) with (mk 42 1 :: mk 47 1 :: k).
-    cbn [take_until_star_slash cp mk].
-    change (42 =? 47) with false. rewrite andb_false_r. rewrite N.eqb_refl. reflexivity.
-  - cbn [nocs] in Hb. apply andb_prop in Hb; destruct Hb as [Hcd Hb].
-    specialize (IH k Hb). cbn [app] in IH |- *.
-    cbn [take_until_star_slash]. cbn [take_until_star_slash] in IH.
-    destruct ((cp c =? 42) && (cp d =? 47)); [discriminate|]. exact IH.
-Qed.
-Lemma match_comment_ok : forall body k, nocs body = true ->
-  match_comment (of_ascii [47; 42] ++ body ++ of_ascii [42; 47] ++ k) = POk tt k.
-Proof.
-  intros body k Hb. unfold match_comment. rewrite ptag_lit. cbn [pbind].
-  rewrite take_until_body by exact Hb. apply ptag_lit.
-Qed.
-Lemma wsm_many : forall w k, wsm w -> nf wsstart k ->
-  exists l, ManyR match_whitespace_item (w ++ k) l k /\ (w <> [] -> l <> []).
-Proof.
-  intros w k Hw Hk; induction Hw as [|c w Hc Hw IH|body w Hb Hw IH].
-  - exists []; split; [apply MR_nil, mwi_fail, Hk|congruence].
-  - destruct IH as (l & HR & _). exists (tt :: l); split; [|discriminate].
-    cbn [app]. eapply MR_cons; [apply mwi_ws, Hc|cbn [length]; lia|exact HR].
-  - destruct IH as (l & HR & _). exists (tt :: l); split; [|discriminate].
-    rewrite <- !app_assoc.
-    eapply MR_cons; [|  |exact HR].
-    + change (of_ascii [47; 42] ++ body ++ of_ascii [42; 47] ++ w ++ k)
-        with (mk 47 1 :: (of_ascii [42] ++ body ++ of_ascii [42; 47] ++ w ++ k)).
-      unfold match_whitespace_item. change (is_css_ws (cp (mk 47 1))) with false. cbv iota.
-      apply (match_comment_ok body (w ++ k) Hb).
-    + rewrite !app_length. cbn [length of_ascii map]. lia.
-Qed.
-Lemma skip_ws_wsm : forall w k, wsm w -> nf wsstart k -> skip_ws (w ++ k) = k.
-Proof. intros w k Hw Hk. destruct (wsm_many w k Hw Hk) as (l & HR & _). eapply skip_ws_R, HR. Qed.
-Lemma wsm_app : forall w1 w2, wsm w1 -> wsm w2 -> wsm (w1 ++ w2).
-Proof.
-  intros w1 w2 H1 H2; induction H1; cbn [app]; auto.
-  - apply wsm_ws; auto.
-  - rewrite <- !app_assoc. apply wsm_comment; auto.
-Qed.
-Lemma wsm_nf : forall (P : N -> bool) w k, wsm w -> (forall x, wsstart x = true -> P x = false) ->
-  (w <> [] \/ nf P k) -> nf P (w ++ k).
-Proof.
-  intros P w k Hw HP Hk; destruct Hw as [|c w Hc Hw|body w Hb Hw]; cbn [app].
-  - destruct Hk; [congruence|assumption].
-  - cbn [nf]. apply HP. cls.
-  - rewrite <- !app_assoc. apply nf_lit. apply HP. reflexivity.
-Qed.
-
-(* a non-empty whitespace run in front of a character that is not `>` is a descendant combinator *)
-Lemma comp_ws : forall w k, wsm w -> w <> [] -> nf (fun x => wsstart x || (x =? 62)) k ->
-  parse_simple_selector_component (w ++ k) = POk CCombDescendant k.
-Proof.
-  intros w k Hw Hne Hk.
-  assert (Hk' : nf wsstart k) by (eapply nf_imp; [|exact Hk]; intros x Hx; cls).
-  unfold parse_simple_selector_component.
-  rewrite skip_ws_wsm by assumption.
-  rewrite (ptag_nf 62) by (eapply nf_imp; [|exact Hk]; intros x Hx; cls). cbn [pbind palt].
-  rewrite (ptag_nf 42) by (apply wsm_nf; [exact Hw|intros; cls|left; exact Hne]). cbn [pbind palt].
-  unfold parse_ws.
-  destruct (wsm_many w k Hw Hk') as (l & HR & Hl).
-  destruct l as [|[] l]; [specialize (Hl Hne); congruence|].
-  rewrite (many1_R _ _ _ _ _ _ HR). reflexivity.
-Qed.
+End SelQ.
 
 (* ------------------------------------------------------------------ *)
 (* 7. MAIN THEOREM 1: selectors round-trip *)
@@ -939,13 +1001,15 @@ Qed.
 
 (* [rest]: the text after the selector.  After a pseudo-element anything may follow; otherwise
    rest must be empty or start with a character that cannot continue a selector (`{` `,` `)` ...:
-   anything but  a-z A-Z 0-9 _ - \ whitespace / > * . # :  ). *)
-Theorem parse_selector_rt : forall s rest,
-  wf_selector s = true ->
+   anything but  a-z A-Z 0-9 _ - \ whitespace / > * . # :  ).
+   General form: optional whitespace [q] inside `:nth-child( An + B )` (after `(`, around the sign
+   of B, before `)`), accepted since the repair of nth_full. *)
+Theorem parse_selector_rt_nthws : forall q s rest,
+  nws_ok q -> wf_selector s = true ->
   (pseudo_el s = None -> nf selcont rest) ->
-  parse_selector (print_selector s ++ rest) = POk s rest.
+  parse_selector (print_selector_q q s ++ rest) = POk s rest.
 Proof.
-  intros [cs pe] rest Hwf Hrest. unfold wf_selector, print_selector in *. cbn [comps pseudo_el] in *.
+  intros q [cs pe] rest Hq Hwf Hrest. unfold wf_selector, print_selector_q in *. cbn [comps pseudo_el] in *.
   rewrite <- app_assoc.
   assert (HK : parse_simple_selector_component (print_pseudo pe ++ rest) = PFail /\
                nf identcont (print_pseudo pe ++ rest)).
@@ -955,7 +1019,7 @@ Proof.
     - cbn [app]. specialize (Hrest eq_refl). split; [apply comp_fail_stop, Hrest|].
       eapply nf_imp; [|exact Hrest]. intros x Hx; unfold selcont in Hx; cls. }
   destruct HK as [HK1 HK2].
-  rewrite (parse_selector_src _ _ [] _ Hwf HK2 (MR_nil _ _ HK1)). cbv zeta.
+  rewrite (parse_selector_src q Hq _ _ [] _ Hwf HK2 (MR_nil _ _ HK1)). cbv zeta.
   rewrite app_nil_r, pops_id by exact Hwf. rewrite rev_involutive.
   destruct pe as [p|].
   - rewrite pseudo_elem_some by discriminate. reflexivity.
@@ -965,12 +1029,12 @@ Qed.
 
 (* the same with whitespace material (spaces, newlines, comments) between the selector and
    the stop character, as in `p {`: the parser reads a descendant combinator and drops it *)
-Theorem parse_selector_rt_ws : forall s w rest,
-  wf_selector s = true -> pseudo_el s = None ->
+Theorem parse_selector_rt_ws_nthws : forall q s w rest,
+  nws_ok q -> wf_selector s = true -> pseudo_el s = None ->
   wsm w -> w <> [] -> nf selcont rest ->
-  parse_selector (print_selector s ++ w ++ rest) = POk s rest.
+  parse_selector (print_selector_q q s ++ w ++ rest) = POk s rest.
 Proof.
-  intros [cs pe] w rest Hwf Hpe Hw Hne Hrest. unfold wf_selector, print_selector in *.
+  intros q [cs pe] w rest Hq Hwf Hpe Hw Hne Hrest. unfold wf_selector, print_selector_q in *.
   cbn [comps pseudo_el] in *. subst pe. cbn [print_pseudo]. rewrite app_nil_r.
   assert (HR : ManyR parse_simple_selector_component (w ++ rest) [CCombDescendant] rest).
   { eapply MR_cons; [apply comp_ws; auto| |apply MR_nil, comp_fail_stop, Hrest].
@@ -978,13 +1042,32 @@ Proof.
     - rewrite app_length. destruct w; [congruence|cbn [length]; lia]. }
   assert (HK : nf identcont (w ++ rest)).
   { apply wsm_nf; [exact Hw|intros; cls|left; exact Hne]. }
-  rewrite (parse_selector_src _ _ _ _ Hwf HK HR). cbv zeta.
+  rewrite (parse_selector_src q Hq _ _ _ _ Hwf HK HR). cbv zeta.
   rewrite pop_desc_snoc.
   destruct (wf_src_inv _ Hwf) as (x & l' & El & Hx & Hl).
   rewrite El. rewrite pop_desc_id by (rewrite last_rev_hd; apply is_comb_desc, Hx).
   rewrite <- El, rev_involutive.
   rewrite pseudo_elem_none; [reflexivity|].
   eapply nf_imp; [|exact Hrest]. intros y Hy; unfold selcont in Hy; cls.
+Qed.
+
+(* the canonical spelling (no whitespace inside `:nth-child(..)`) *)
+Theorem parse_selector_rt : forall s rest,
+  wf_selector s = true ->
+  (pseudo_el s = None -> nf selcont rest) ->
+  parse_selector (print_selector s ++ rest) = POk s rest.
+Proof.
+  intros s rest Hwf Hrest. rewrite <- print_selector_q0.
+  apply parse_selector_rt_nthws; [apply nws0_ok|exact Hwf|exact Hrest].
+Qed.
+
+Theorem parse_selector_rt_ws : forall s w rest,
+  wf_selector s = true -> pseudo_el s = None ->
+  wsm w -> w <> [] -> nf selcont rest ->
+  parse_selector (print_selector s ++ w ++ rest) = POk s rest.
+Proof.
+  intros s w rest Hwf Hpe Hw Hne Hrest. rewrite <- print_selector_q0.
+  apply parse_selector_rt_ws_nthws; auto using nws0_ok.
 Qed.
 
 (* non-vacuity:  div > p.c #id :nth-child(2n+1)   and   *.x-1::before  *)
@@ -1441,15 +1524,46 @@ Section Decls.
 End Decls.
 
 (* ---- selector lists ---- *)
+(* the extended set of optional-whitespace positions (accepted since the repairs of comma_sep and
+   nth_full): those of [wsp], plus before the `,` of a selector list, plus inside `:nth-child(..)` *)
+Record wsp2 := mkwsp2 {
+  w_base : wsp;
+  w_comma0 : text;  (* before the `,` between selectors *)
+  w_nth : nws       (* inside `:nth-child( An + B )`: after `(`, around the sign of B, before `)` *)
+}.
+Definition wsp2_ok (p : wsp2) : Prop := wsp_ok (w_base p) /\ wsm (w_comma0 p) /\ nws_ok (w_nth p).
+Definition lift_wsp (p : wsp) : wsp2 := mkwsp2 p [] nws0.
+Lemma lift_wsp_ok : forall p, wsp_ok p -> wsp2_ok (lift_wsp p).
+Proof. intros p Hp; split; [exact Hp|split; [apply wsm_nil|apply nws0_ok]]. Qed.
+
+Definition print_sels_ws2 (p : wsp2) (ss : list selector) : text :=
+  match ss with
+  | [] => []
+  | s :: ss' => print_selector_q (w_nth p) s ++
+                flat_map (fun s' => w_comma0 p ++ of_ascii [44] ++ w_comma (w_base p) ++
+                                    print_selector_q (w_nth p) s') ss'
+  end.
+Definition print_ruleset_ws2 (p : wsp2) (r : cssruleset) : text :=
+  print_sels_ws2 p (crs_selectors r) ++ w_sel (w_base p) ++ of_ascii [123] ++ w_open (w_base p) ++
+  print_decls_ws (w_base p) (crs_decls r) ++ w_close (w_base p) ++ of_ascii [125] ++ w_end (w_base p).
+
+Lemma print_sels_ws2_lift : forall p ss, print_sels_ws2 (lift_wsp p) ss = print_sels_ws p ss.
+Proof.
+  intros p [|s ss]; [reflexivity|]. cbn [print_sels_ws2 print_sels_ws lift_wsp w_nth w_comma0 w_base].
+  reflexivity.
+Qed.
+Lemma print_ruleset_ws2_lift : forall p r, print_ruleset_ws2 (lift_wsp p) r = print_ruleset_ws p r.
+Proof. intros p r. unfold print_ruleset_ws2, print_ruleset_ws. rewrite print_sels_ws2_lift. reflexivity. Qed.
+
 Definition selstart (x : N) : bool :=
   (x =? 46) || (x =? 35) || (x =? 42) || (x =? 58) || (x =? 45) || lowstart x.
 
-Lemma sel_first : forall (P : N -> bool) s k, wf_selector s = true ->
-  (forall x, selstart x = true -> P x = false) -> nf P (print_selector s ++ k).
+Lemma sel_first : forall (P : N -> bool) q s k, wf_selector s = true ->
+  (forall x, selstart x = true -> P x = false) -> nf P (print_selector_q q s ++ k).
 Proof.
-  intros P s k Hwf HP. unfold wf_selector in Hwf.
+  intros P q s k Hwf HP. unfold wf_selector in Hwf.
   destruct (wf_src_inv _ Hwf) as (x & l' & El & Hx & _).
-  unfold print_selector. rewrite El, print_comps_cons, <- !app_assoc.
+  unfold print_selector_q. rewrite El, print_comps_cons, <- !app_assoc.
   unfold wf_src in Hwf. rewrite El in Hwf.
   assert (Hok : comp_ok x = true).
   { destruct (forallb comp_ok (x :: l')) eqn:E; [|discriminate].
@@ -1460,73 +1574,91 @@ Proof.
   repeat rewrite orb_true_r; reflexivity.
 Qed.
 
-Lemma print_selector_ne : forall s, wf_selector s = true -> print_selector s <> [].
+Lemma print_selector_ne : forall q s, wf_selector s = true -> print_selector_q q s <> [].
 Proof.
-  intros s Hwf E. pose proof (sel_first (fun _ => true) s [] Hwf) as H.
-  rewrite E in H. cbn [app nf] in H.
+  intros q s Hwf E.
   unfold wf_selector in Hwf. destruct (wf_src_inv _ Hwf) as (x & l' & El & Hx & _).
-  unfold print_selector in E. rewrite El, print_comps_cons in E.
+  unfold print_selector_q in E. rewrite El, print_comps_cons in E.
   unfold wf_src in Hwf. rewrite El in Hwf.
   assert (Hok : comp_ok x = true).
   { destruct (forallb comp_ok (x :: l')) eqn:E'; [|discriminate].
     cbn [forallb] in E'. apply andb_prop in E'; tauto. }
-  pose proof (print_comp_len x Hok) as Hl.
-  destruct (print_comp x); [cbn in Hl; lia|discriminate].
+  pose proof (print_comp_len q x Hok) as Hl.
+  destruct (print_comp_q q x); [cbn in Hl; lia|discriminate].
 Qed.
 
-Lemma comma_sep_ok : forall w N, wsm w -> nf wsstart N -> comma_sep (of_ascii [44] ++ w ++ N) = POk tt N.
+(* whitespace is skipped on both sides of the `,` *)
+Lemma comma_sep_ok : forall w0 w N, wsm w0 -> wsm w -> nf wsstart N ->
+  comma_sep (w0 ++ of_ascii [44] ++ w ++ N) = POk tt N.
 Proof.
-  intros w N Hw HN. unfold comma_sep. rewrite ptag_lit. cbn [pbind]. rewrite skip_ws_wsm by auto. reflexivity.
+  intros w0 w N Hw0 Hw HN. unfold comma_sep.
+  rewrite skip_ws_wsm by (auto; apply nf_lit; reflexivity).
+  rewrite ptag_lit. cbn [pbind]. rewrite skip_ws_wsm by auto. reflexivity.
+Qed.
+Lemma comma_sep_fail : forall w N, wsm w -> nf (fun x => wsstart x || (x =? 44)) N ->
+  comma_sep (w ++ N) = PFail.
+Proof.
+  intros w N Hw HN. unfold comma_sep.
+  rewrite skip_ws_wsm; [|exact Hw|eapply nf_imp; [|exact HN]; intros x Hx; cls].
+  rewrite ptag_nf by (eapply nf_imp; [|exact HN]; intros x Hx; cls). reflexivity.
+Qed.
+
+(* a selector, optional whitespace, a stop character: after a pseudo-element the whitespace
+   stays in the rest; otherwise it is read as a descendant combinator and dropped *)
+Lemma sel_then_ws : forall q s w K, nws_ok q -> wf_selector s = true -> wsm w -> nf selcont K ->
+  exists w', wsm w' /\ parse_selector (print_selector_q q s ++ w ++ K) = POk s (w' ++ K).
+Proof.
+  intros q s w K Hq Hs Hw HK. destruct (pseudo_el s) eqn:Epe.
+  - exists w. split; [exact Hw|]. apply parse_selector_rt_nthws; [exact Hq|exact Hs|congruence].
+  - exists []. split; [apply wsm_nil|]. cbn [app]. destruct w as [|c w'].
+    + cbn [app]. apply parse_selector_rt_nthws; [exact Hq|exact Hs|intros _; exact HK].
+    + apply parse_selector_rt_ws_nthws; auto; discriminate.
 Qed.
 
 Section Sels.
-  Variable p : wsp.
-  Hypothesis Hp : wsp_ok p.
+  Variable p : wsp2.
+  Hypothesis Hp : wsp2_ok p.
   Variable Z : text.
   Let Zb : text := of_ascii [123] ++ Z.
-  Let tailf := fun s' => of_ascii [44] ++ w_comma p ++ print_selector s'.
+  Let q : nws := w_nth p.
+  Let tailf := fun s' => w_comma0 p ++ of_ascii [44] ++ w_comma (w_base p) ++ print_selector_q q s'.
 
   Lemma sels_tail : forall ss s, wf_selector s = true -> forallb wf_selector ss = true ->
-    exists r0 r1, parse_selector (print_selector s ++ flat_map tailf ss ++ w_sel p ++ Zb) = POk s r0 /\
+    exists r0 r1, parse_selector (print_selector_q q s ++ flat_map tailf ss ++ w_sel (w_base p) ++ Zb) = POk s r0 /\
                   SepR comma_sep parse_selector r0 ss r1 /\ skip_ws r1 = Zb.
   Proof.
-    pose proof Hp as Hp'. destruct Hp' as (Hco & Hse & _).
+    pose proof Hp as Hp'. destruct Hp' as ((Hco & Hse & _) & Hco0 & Hq).
     assert (HZ : nf selcont Zb) by (apply nf_lit; reflexivity).
     induction ss as [|s2 ss IH]; intros s Hs Hss; cbn [flat_map app].
-    - destruct (pseudo_el s) eqn:Epe.
-      + (* pseudo-element: the whitespace stays *)
-        exists (w_sel p ++ Zb), (w_sel p ++ Zb). split; [|split].
-        * apply parse_selector_rt; [exact Hs|congruence].
-        * apply SR_nil. unfold comma_sep. rewrite ptag_nf; [reflexivity|].
-          apply wsm_nf; [exact Hse|intros; cls|right; apply nf_lit; reflexivity].
-        * apply skip_ws_wsm; [exact Hse|apply nf_lit; reflexivity].
-      + exists Zb, Zb. split; [|split].
-        * destruct (w_sel p) as [|c w] eqn:Ew.
-          -- cbn [app]. apply parse_selector_rt; [exact Hs|intros _; exact HZ].
-          -- apply parse_selector_rt_ws; auto; discriminate.
-        * apply SR_nil. unfold comma_sep. rewrite ptag_nf by (apply nf_lit; reflexivity). reflexivity.
-        * apply skip_ws_id, nf_lit; reflexivity.
+    - destruct (sel_then_ws q s (w_sel (w_base p)) Zb Hq Hs Hse HZ) as (w' & Hw' & Hsel).
+      exists (w' ++ Zb), (w' ++ Zb). split; [exact Hsel|split].
+      + apply SR_nil. apply comma_sep_fail; [exact Hw'|apply nf_lit; reflexivity].
+      + apply skip_ws_wsm; [exact Hw'|apply nf_lit; reflexivity].
     - cbn [forallb] in Hss. apply andb_prop in Hss; destruct Hss as [Hs2 Hss].
       destruct (IH s2 Hs2 Hss) as (r0 & r1 & Hp2 & HS & Hr1).
       unfold tailf at 1. rewrite <- !app_assoc.
-      eexists; exists r1. split; [|split; [|exact Hr1]].
-      + apply parse_selector_rt; [exact Hs|intros _; apply nf_lit; reflexivity].
-      + eapply SR_cons.
-        * apply comma_sep_ok; [exact Hco|]. apply sel_first; [exact Hs2|]. intros x Hx; unfold selstart in Hx; cls.
-        * rewrite !app_length; cbn [length of_ascii map]; lia.
-        * exact Hp2.
-        * pose proof (parse_selector_B (print_selector s2 ++ flat_map tailf ss ++ w_sel p ++ Zb)) as HB.
-          rewrite Hp2 in HB. cbn [B] in HB. lia.
-        * exact HS.
+      destruct (sel_then_ws q s (w_comma0 p)
+                  (of_ascii [44] ++ w_comma (w_base p) ++ print_selector_q q s2 ++
+                   flat_map tailf ss ++ w_sel (w_base p) ++ Zb) Hq Hs Hco0
+                  ltac:(apply nf_lit; reflexivity)) as (w' & Hw' & Hsel).
+      eexists; exists r1. split; [exact Hsel|split; [|exact Hr1]].
+      eapply SR_cons.
+      + apply comma_sep_ok; [exact Hw'|exact Hco|].
+        apply sel_first; [exact Hs2|]. intros x Hx; unfold selstart in Hx; cls.
+      + rewrite !app_length; cbn [length of_ascii map]; lia.
+      + exact Hp2.
+      + pose proof (parse_selector_B (print_selector_q q s2 ++ flat_map tailf ss ++ w_sel (w_base p) ++ Zb)) as HB.
+        rewrite Hp2 in HB. cbn [B] in HB. lia.
+      + exact HS.
   Qed.
 
   Lemma sels_ok : forall ss, ss <> [] -> forallb wf_selector ss = true ->
-    exists r1, separated_list0 comma_sep parse_selector (print_sels_ws p ss ++ w_sel p ++ Zb) = POk ss r1 /\
+    exists r1, separated_list0 comma_sep parse_selector (print_sels_ws2 p ss ++ w_sel (w_base p) ++ Zb) = POk ss r1 /\
                skip_ws r1 = Zb.
   Proof.
     intros [|s ss] Hne Hss; [congruence|]. cbn [forallb] in Hss. apply andb_prop in Hss; destruct Hss as [Hs Hss].
     destruct (sels_tail ss s Hs Hss) as (r0 & r1 & H0 & HS & Hr1).
-    exists r1; split; [|exact Hr1]. cbn [print_sels_ws]. rewrite <- !app_assoc.
+    exists r1; split; [|exact Hr1]. cbn [print_sels_ws2]. rewrite <- !app_assoc.
     eapply separated_list0_R; eauto.
   Qed.
 End Sels.
@@ -1542,21 +1674,23 @@ Proof.
   intros k. apply many0_R, MR_nil. unfold semi_ws. rewrite ptag_nf by (apply nf_lit; reflexivity). reflexivity.
 Qed.
 
-Theorem parse_ruleset_rt : forall p r rest,
-  wsp_ok p -> ruleset_ok r = true ->
-  parse_ruleset (print_ruleset_ws p r ++ rest) = POk r (skip_ws (w_end p ++ rest)).
+(* the general form, with all the optional-whitespace positions of [wsp2] *)
+Theorem parse_ruleset_rt2 : forall p r rest,
+  wsp2_ok p -> ruleset_ok r = true ->
+  parse_ruleset (print_ruleset_ws2 p r ++ rest) = POk r (skip_ws (w_end (w_base p) ++ rest)).
 Proof.
   intros p [ss ds] rest Hp Hr. unfold ruleset_ok in Hr; cbn [crs_selectors crs_decls] in Hr.
   apply andb_prop in Hr; destruct Hr as [Hr Hds]. apply andb_prop in Hr; destruct Hr as [Hne Hss].
   assert (Hne' : ss <> []) by (destruct ss; [cbn in Hne; congruence|discriminate]).
-  unfold print_ruleset_ws; cbn [crs_selectors crs_decls]. rewrite <- !app_assoc.
-  destruct (sels_ok p Hp (w_open p ++ print_decls_ws p ds ++ w_close p ++ of_ascii [125] ++ w_end p ++ rest)
-                    ss Hne' Hss) as (r1 & Hsel & Hr1).
-  destruct (parse_rules_ok p Hp (w_end p ++ rest) ds Hds) as (K' & Hrules & HK').
+  pose proof Hp as (Hb & _ & _). set (b := w_base p) in *.
+  unfold print_ruleset_ws2; cbn [crs_selectors crs_decls]. fold b. rewrite <- !app_assoc.
+  destruct (sels_ok p Hp (w_open b ++ print_decls_ws b ds ++ w_close b ++ of_ascii [125] ++ w_end b ++ rest)
+                    ss Hne' Hss) as (r1 & Hsel & Hr1). fold b in Hsel.
+  destruct (parse_rules_ok b Hb (w_end b ++ rest) ds Hds) as (K' & Hrules & HK').
   unfold parse_ruleset. cbv zeta.
-  assert (Hstart : nf wsstart (print_sels_ws p ss ++ w_sel p ++ of_ascii [123] ++ w_open p ++
-                    print_decls_ws p ds ++ w_close p ++ of_ascii [125] ++ w_end p ++ rest)).
-  { destruct ss as [|s ss']; [congruence|]. cbn [print_sels_ws]. rewrite <- app_assoc.
+  assert (Hstart : nf wsstart (print_sels_ws2 p ss ++ w_sel b ++ of_ascii [123] ++ w_open b ++
+                    print_decls_ws b ds ++ w_close b ++ of_ascii [125] ++ w_end b ++ rest)).
+  { destruct ss as [|s ss']; [congruence|]. cbn [print_sels_ws2]. rewrite <- app_assoc.
     cbn [forallb] in Hss. apply andb_prop in Hss; destruct Hss as [Hs _].
     apply sel_first; [exact Hs|]. intros x Hx; unfold selstart in Hx; cls. }
   rewrite (skip_ws_id _ Hstart). rewrite Hsel. cbn [pbind].
@@ -1566,57 +1700,88 @@ Proof.
   rewrite skip_ws_id by (apply nf_lit; reflexivity). rewrite ptag_lit. reflexivity.
 Qed.
 
+Theorem parse_ruleset_rt : forall p r rest,
+  wsp_ok p -> ruleset_ok r = true ->
+  parse_ruleset (print_ruleset_ws p r ++ rest) = POk r (skip_ws (w_end p ++ rest)).
+Proof.
+  intros p r rest Hp Hr. rewrite <- print_ruleset_ws2_lift.
+  apply (parse_ruleset_rt2 (lift_wsp p) r rest (lift_wsp_ok p Hp) Hr).
+Qed.
+
 (* a sheet: rule sets, each with its own whitespace choices *)
 Definition print_sheet_ws (prs : list (wsp * cssruleset)) : text :=
   flat_map (fun pr => print_ruleset_ws (fst pr) (snd pr)) prs.
 Definition sheet_ok (prs : list (wsp * cssruleset)) : Prop :=
   Forall (fun pr => wsp_ok (fst pr) /\ ruleset_ok (snd pr) = true) prs.
+Definition print_sheet_ws2 (prs : list (wsp2 * cssruleset)) : text :=
+  flat_map (fun pr => print_ruleset_ws2 (fst pr) (snd pr)) prs.
+Definition sheet_ok2 (prs : list (wsp2 * cssruleset)) : Prop :=
+  Forall (fun pr => wsp2_ok (fst pr) /\ ruleset_ok (snd pr) = true) prs.
+Definition lift_sheet (prs : list (wsp * cssruleset)) : list (wsp2 * cssruleset) :=
+  map (fun pr => (lift_wsp (fst pr), snd pr)) prs.
+Lemma print_sheet_ws2_lift : forall prs, print_sheet_ws2 (lift_sheet prs) = print_sheet_ws prs.
+Proof.
+  induction prs as [|pr prs IH]; [reflexivity|].
+  unfold print_sheet_ws2, print_sheet_ws, lift_sheet in *. cbn [map flat_map fst snd].
+  rewrite IH, print_ruleset_ws2_lift. reflexivity.
+Qed.
+Lemma lift_sheet_ok : forall prs, sheet_ok prs -> sheet_ok2 (lift_sheet prs).
+Proof.
+  intros prs H. unfold sheet_ok2, lift_sheet. apply Forall_map.
+  eapply Forall_impl; [|exact H]. intros pr [H1 H2]. cbn [fst snd]. split; [apply lift_wsp_ok, H1|exact H2].
+Qed.
+Lemma lift_sheet_snd : forall prs, map snd (lift_sheet prs) = map snd prs.
+Proof. intros prs. unfold lift_sheet. rewrite map_map. reflexivity. Qed.
 
 Lemma print_ruleset_first : forall (P : N -> bool) p r k, ruleset_ok r = true ->
-  (forall x, selstart x = true -> P x = false) -> nf P (print_ruleset_ws p r ++ k).
+  (forall x, selstart x = true -> P x = false) -> nf P (print_ruleset_ws2 p r ++ k).
 Proof.
   intros P p [ss ds] k Hr HP. unfold ruleset_ok in Hr; cbn [crs_selectors crs_decls] in Hr.
   apply andb_prop in Hr; destruct Hr as [Hr _]. apply andb_prop in Hr; destruct Hr as [Hne Hss].
   destruct ss as [|s ss]; [cbn in Hne; congruence|].
   cbn [forallb] in Hss. apply andb_prop in Hss; destruct Hss as [Hs _].
-  unfold print_ruleset_ws; cbn [crs_selectors print_sels_ws]. rewrite <- !app_assoc.
+  unfold print_ruleset_ws2; cbn [crs_selectors print_sels_ws2]. rewrite <- !app_assoc.
   apply sel_first; auto.
 Qed.
 
-Lemma sheet_many : forall prs, sheet_ok prs ->
-  ManyR parse_statement (print_sheet_ws prs) (map (fun pr => Some (snd pr)) prs) [] /\
-  nf wsstart (print_sheet_ws prs).
+Lemma sheet_many : forall prs, sheet_ok2 prs ->
+  ManyR parse_statement (print_sheet_ws2 prs) (map (fun pr => Some (snd pr)) prs) [] /\
+  nf wsstart (print_sheet_ws2 prs).
 Proof.
   induction prs as [|[p r] prs IH]; intros Hok.
   - split; [apply MR_nil; reflexivity|exact I].
   - inversion Hok as [|pr prs' [Hp Hr] Hok']; subst. cbn [fst snd] in *.
     destruct (IH Hok') as [HM Hnf].
-    unfold print_sheet_ws; cbn [flat_map map fst snd]. fold (print_sheet_ws prs).
+    unfold print_sheet_ws2; cbn [flat_map map fst snd]. fold (print_sheet_ws2 prs).
     split.
-    + destruct Hp as (_ & _ & _ & _ & _ & _ & _ & _ & _ & Hend).
-      assert (Hp : wsp_ok p) by (inversion Hok as [|? ? [H ?] ?]; exact H).
+    + pose proof Hp as ((_ & _ & _ & _ & _ & _ & _ & _ & _ & Hend) & _ & _).
       eapply MR_cons; [| |exact HM].
-      * unfold parse_statement. rewrite (parse_ruleset_rt p r _ Hp Hr). cbn [pmap palt].
+      * unfold parse_statement. rewrite (parse_ruleset_rt2 p r _ Hp Hr). cbn [pmap palt].
         rewrite skip_ws_wsm by assumption. reflexivity.
       * apply len_app_lt. intros E.
-        pose proof (print_ruleset_first (fun _ => true) p r [] Hr) as H.
-        rewrite E in H. cbn [app nf] in H.
-        unfold print_ruleset_ws in E. destruct r as [[|s ss] ds]; [discriminate|].
-        cbn [crs_selectors print_sels_ws] in E. rewrite <- !app_assoc in E.
+        unfold print_ruleset_ws2 in E. destruct r as [[|s ss] ds]; [discriminate|].
+        cbn [crs_selectors print_sels_ws2] in E. rewrite <- !app_assoc in E.
         unfold ruleset_ok in Hr; cbn [crs_selectors crs_decls] in Hr.
         apply andb_prop in Hr; destruct Hr as [Hr _]. apply andb_prop in Hr; destruct Hr as [_ Hss].
         cbn [forallb] in Hss. apply andb_prop in Hss; destruct Hss as [Hs _].
-        apply (print_selector_ne s Hs). destruct (print_selector s); [reflexivity|discriminate].
+        apply (print_selector_ne (w_nth p) s Hs). destruct (print_selector_q (w_nth p) s); [reflexivity|discriminate].
     + apply print_ruleset_first; [exact Hr|]. intros x Hx; unfold selstart in Hx; cls.
 Qed.
 
-Theorem parse_stylesheet_rt_ws : forall prs, sheet_ok prs ->
-  parse_stylesheet (print_sheet_ws prs) = POk (map snd prs) [].
+Theorem parse_stylesheet_rt_ws2 : forall prs, sheet_ok2 prs ->
+  parse_stylesheet (print_sheet_ws2 prs) = POk (map snd prs) [].
 Proof.
   intros prs Hok. unfold parse_stylesheet.
   rewrite (many0_R _ _ _ _ _ (proj1 (sheet_many prs Hok))). cbn [pbind].
   f_equal. induction prs as [|pr prs IH]; [reflexivity|].
   cbn [map flat_map app]. f_equal. apply IH. inversion Hok; assumption.
+Qed.
+
+Theorem parse_stylesheet_rt_ws : forall prs, sheet_ok prs ->
+  parse_stylesheet (print_sheet_ws prs) = POk (map snd prs) [].
+Proof.
+  intros prs Hok. rewrite <- print_sheet_ws2_lift, <- lift_sheet_snd.
+  apply parse_stylesheet_rt_ws2, lift_sheet_ok, Hok.
 Qed.
 
 (* the canonical printer: parse (print rs) = rs *)
@@ -1648,15 +1813,24 @@ Proof.
 Qed.
 
 (* C17, parsing side: style sheets that differ only in optional whitespace / comments
-   (at the positions of [wsp]) yield the same rules, hence style every document identically *)
+   (at the positions of [wsp2]: those of [wsp], before the `,`, inside `:nth-child(..)`) yield
+   the same rules as the canonical spelling, hence style every document identically *)
+Theorem insignificant_whitespace2 : forall prs, sheet_ok2 prs ->
+  parse_css_rules (print_sheet_ws2 prs) = parse_css_rules (concat (map print_ruleset (map snd prs))).
+Proof.
+  intros prs Hok. unfold parse_css_rules.
+  rewrite (parse_stylesheet_rt_ws2 prs Hok).
+  rewrite parse_stylesheet_rt; [reflexivity|].
+  apply forallb_forall. intros r Hin. apply in_map_iff in Hin. destruct Hin as (pr & <- & Hin).
+  unfold sheet_ok2 in Hok. rewrite Forall_forall in Hok. apply (Hok pr Hin).
+Qed.
+
+(* the positions of [wsp] only *)
 Theorem insignificant_whitespace : forall prs, sheet_ok prs ->
   parse_css_rules (print_sheet_ws prs) = parse_css_rules (concat (map print_ruleset (map snd prs))).
 Proof.
-  intros prs Hok. unfold parse_css_rules.
-  rewrite (parse_stylesheet_rt_ws prs Hok).
-  rewrite parse_stylesheet_rt; [reflexivity|].
-  apply forallb_forall. intros r Hin. apply in_map_iff in Hin. destruct Hin as (pr & <- & Hin).
-  unfold sheet_ok in Hok. rewrite Forall_forall in Hok. apply (Hok pr Hin).
+  intros prs Hok. rewrite <- print_sheet_ws2_lift, <- lift_sheet_snd.
+  apply insignificant_whitespace2, lift_sheet_ok, Hok.
 Qed.
 
 (* ------------------------------------------------------------------ *)
@@ -1721,38 +1895,115 @@ Proof. vm_compute. reflexivity. Qed.
 Example ex_ws_differs : print_ruleset_ws ex_wsp ex_rs1 <> print_ruleset ex_rs1.
 Proof. vm_compute. discriminate. Qed.
 
+(* the extended positions: whitespace / comments before the `,` and inside `:nth-child( 2n + 1 )`
+   `div > p.c #id :nth-child( 2n /* c */+ 1 ) /* c */,/* c */\n *.x-1::before/* c */{ ... }` *)
+Definition ex_nws : nws := mknws sp1 (of_ascii [32] ++ cmt) sp1 sp1.
+Definition ex_wsp2 : wsp2 := mkwsp2 ex_wsp (of_ascii [32] ++ cmt) ex_nws.
+Definition ex_wsp2b : wsp2 := mkwsp2 canon sp1 (mknws [] sp1 sp1 []).
+Example ex_nws_ok : nws_ok ex_nws.
+Proof.
+  unfold nws_ok, ex_nws, sp1; cbn [n_open n_pre n_post n_close].
+  assert (Hc : wsm cmt) by (rewrite <- (app_nil_r cmt); apply cmt_wsm, wsm_nil).
+  repeat split; try (apply wsm_ws; [reflexivity|apply wsm_nil]).
+  apply wsm_ws; [reflexivity|exact Hc].
+Qed.
+Example ex_wsp2_ok : wsp2_ok ex_wsp2.
+Proof.
+  split; [apply ex_wsp_ok|split; [|apply ex_nws_ok]]. cbn [w_comma0 ex_wsp2].
+  apply wsm_ws; [reflexivity|]. rewrite <- (app_nil_r cmt); apply cmt_wsm, wsm_nil.
+Qed.
+Example ex_wsp2b_ok : wsp2_ok ex_wsp2b.
+Proof.
+  split; [apply canon_ok|]. unfold nws_ok, ex_wsp2b, sp1; cbn [w_comma0 w_nth n_open n_pre n_post n_close].
+  repeat split; try apply wsm_nil; (apply wsm_ws; [reflexivity|apply wsm_nil]).
+Qed.
+(* div > p.c #id :nth-child(2n + 1) *)
+Example ex_sel1_print_nthws : print_selector_q (mknws [] sp1 sp1 []) ex_sel1 =
+  of_ascii [100;105;118;32;62;32;112;46;99;32;35;105;100;32;58;110;116;104;45;99;104;105;108;100;
+            40;50;110;32;43;32;49;41].
+Proof. reflexivity. Qed.
+Example ex_sel1_rt_nthws :
+  parse_selector (print_selector_q ex_nws ex_sel1 ++ of_ascii [123]) = POk ex_sel1 (of_ascii [123]).
+Proof. apply parse_selector_rt_nthws; [apply ex_nws_ok|reflexivity|intros _; reflexivity]. Qed.
+(* div > p.c #id :nth-child(2n + 1) , *.x-1::before { color: #ff0000 !important; ... }  *)
+Example ex_rs1_print2 : print_ruleset_ws2 ex_wsp2b ex_rs1 = of_ascii
+  [100;105;118;32;62;32;112;46;99;32;35;105;100;32;58;110;116;104;45;99;104;105;108;100;40;50;110;32;43;32;49;41;
+   32;44;32;42;46;120;45;49;58;58;98;101;102;111;114;101;32;123;32;99;111;108;111;114;58;32;35;102;102;48;48;48;48;
+   32;33;105;109;112;111;114;116;97;110;116;59;32;98;97;99;107;103;114;111;117;110;100;45;99;111;108;111;114;58;
+   32;35;48;48;56;48;102;102;59;32;100;105;115;112;108;97;121;58;32;110;111;110;101;32;125;10].
+Proof. vm_compute. reflexivity. Qed.
+(* `*.x-1::before /* c */,... div ... {`: whitespace before the comma after a pseudo-element too *)
+Definition ex_rs3 : cssruleset := mkcrs [ex_sel2; ex_sel1; ex_sel2] [mkdecl (DDisplay true) false].
+Example ex_ws2_same :
+  parse_css_rules (print_sheet_ws2 [(ex_wsp2, ex_rs1); (ex_wsp2b, ex_rs3); (lift_wsp canon, ex_rs2); (ex_wsp2, ex_rs3)]) =
+  parse_css_rules (concat (map print_ruleset [ex_rs1; ex_rs3; ex_rs2; ex_rs3])).
+Proof.
+  apply (insignificant_whitespace2 [(ex_wsp2, ex_rs1); (ex_wsp2b, ex_rs3); (lift_wsp canon, ex_rs2); (ex_wsp2, ex_rs3)]).
+  unfold sheet_ok2.
+  repeat (apply Forall_cons;
+          [cbn [fst snd]; split;
+           [first [apply ex_wsp2_ok|apply ex_wsp2b_ok|apply lift_wsp_ok, canon_ok]|reflexivity]|]).
+  apply Forall_nil.
+Qed.
+Example ex_ws2_computed :
+  parse_stylesheet (print_sheet_ws2 [(ex_wsp2, ex_rs1); (ex_wsp2b, ex_rs3); (ex_wsp2, ex_rs3)])
+  = POk [ex_rs1; ex_rs3; ex_rs3] [].
+Proof. vm_compute. reflexivity. Qed.
+Example ex_ws2_differs :
+  print_ruleset_ws2 ex_wsp2 ex_rs1 <> print_ruleset_ws ex_wsp ex_rs1 /\
+  print_ruleset_ws2 ex_wsp2b ex_rs1 <> print_ruleset ex_rs1.
+Proof. split; vm_compute; discriminate. Qed.
+
 (* ------------------------------------------------------------------ *)
-(* 12. FINDINGS (insignificant syntax that the parser does not accept; not round-trip
-   failures: the canonical printer avoids these spellings).  Both confirmed on the
-   implementation (src/css/parser.rs parse_nth_child_args / parse_ruleset). *)
-(* (a) `li:nth-child(2n + 1){color:red}`: whitespace is skipped between `n` and the sign but
-       not between the sign and the digits, so the usual spelling `2n + 1` is not an An+B,
-       the selector stops before `:nth-child` and the whole rule set is dropped.
-       Likewise upper case `2N+1` / `EVEN` (CSS is case-insensitive there). *)
-Example finding_nth_space :
-  (exists r, parse_css_rules (of_ascii
+(* 12. FORMER FINDINGS, now repaired in the model (CssParse.nth_full / comma_sep), and what is
+   still not accepted.  The general statements are parse_selector_rt_nthws and
+   parse_ruleset_rt2 / insignificant_whitespace2 above. *)
+(* (a) `li:nth-child(2n + 1){color:red}`: whitespace is now skipped on both sides of the sign of
+       B (it used to be skipped only between `n` and the sign, so the usual spelling `2n + 1` was
+       not an An+B and the whole rule set was dropped).  `2n + 1`, `2n+ 1`, `2n +1` now give the
+       same rule as `2n+1`. *)
+Example repaired_nth_space :
+  exists r,
+  parse_css_rules (of_ascii
      [108;105;58;110;116;104;45;99;104;105;108;100;40;50;110;43;49;41;123;99;111;108;111;114;58;114;101;100;125])
-     = CssOk [r]) /\
+     = CssOk [r] /\
   parse_css_rules (of_ascii
      [108;105;58;110;116;104;45;99;104;105;108;100;40;50;110;32;43;32;49;41;123;99;111;108;111;114;58;114;101;100;125])
-     = CssOk [] /\
+     = CssOk [r] /\
+  parse_css_rules (of_ascii
+     [108;105;58;110;116;104;45;99;104;105;108;100;40;50;110;43;32;49;41;123;99;111;108;111;114;58;114;101;100;125])
+     = CssOk [r] /\
+  parse_css_rules (of_ascii
+     [108;105;58;110;116;104;45;99;104;105;108;100;40;50;110;32;43;49;41;123;99;111;108;111;114;58;114;101;100;125])
+     = CssOk [r].
+Proof. eexists; repeat split; vm_compute; reflexivity. Qed.
+(*     STILL a finding (not touched by the repair): upper case `2N+1` / `EVEN` (CSS is
+       case-insensitive there) is not an An+B; the rule set is dropped. *)
+Example finding_nth_upper :
   parse_css_rules (of_ascii
      [108;105;58;110;116;104;45;99;104;105;108;100;40;50;78;43;49;41;123;99;111;108;111;114;58;114;101;100;125])
      = CssOk [].
-Proof. split; [eexists; vm_compute; reflexivity|split; vm_compute; reflexivity]. Qed.
-(* (b) `p::before , i{display:none}`: no whitespace is skipped before the `,` of a selector
-       list; after a plain selector the whitespace is eaten as a descendant combinator (and
-       dropped), after a pseudo-element it is not, and the rule set is dropped.  This is why
-       [wsp] has no "before the comma" position. *)
-Example finding_pseudo_comma :
-  (exists r1 r2, parse_css_rules (of_ascii
+Proof. vm_compute; reflexivity. Qed.
+(* (b) `p::before , i{display:none}`: whitespace is now skipped before the `,` of a selector
+       list as well.  (After a plain selector it was always eaten as a descendant combinator and
+       dropped; after a pseudo-element it was not, and the rule set was dropped.)  `p::before , i`
+       now gives the same two rules as `p::before, i`.  [wsp2] has the "before the comma"
+       position [w_comma0]. *)
+Example repaired_pseudo_comma :
+  exists r1 r2,
+  parse_css_rules (of_ascii
      [112;58;58;98;101;102;111;114;101;44;32;105;123;100;105;115;112;108;97;121;58;110;111;110;101;125])
-     = CssOk [r1; r2]) /\
+     = CssOk [r1; r2] /\
   parse_css_rules (of_ascii
      [112;58;58;98;101;102;111;114;101;32;44;32;105;123;100;105;115;112;108;97;121;58;110;111;110;101;125])
-     = CssOk [].
-Proof. split; [do 2 eexists; vm_compute; reflexivity|vm_compute; reflexivity]. Qed.
+     = CssOk [r1; r2].
+Proof. do 2 eexists; repeat split; vm_compute; reflexivity. Qed.
 
+Print Assumptions parse_selector_rt_nthws.
+Print Assumptions parse_selector_rt_ws_nthws.
+Print Assumptions parse_ruleset_rt2.
+Print Assumptions parse_stylesheet_rt_ws2.
+Print Assumptions insignificant_whitespace2.
 Print Assumptions parse_ruleset_rt.
 Print Assumptions parse_stylesheet_rt_ws.
 Print Assumptions parse_ruleset_rt_canon.
